@@ -122,6 +122,16 @@ def gen_grammars(prop, tier, n, profile):
             g = gg.decorate(g, rnd, ctx=(0.6 if rnd.random() < 0.8 else 0.0))
             if gg.classify(ref_lr1.build(g)) in ('rr', 'acc'): continue
             add(g)
+    elif profile == 'customlexer':   # C18
+        st = gg.grammar_stream(rnd, want_lr1=0.85)
+        for g in core[:12] + gg.err_core()[:4]:
+            if gg.classify(ref_lr1.build(g)) not in ('rr', 'acc'): add(gg.to_custom_lexer(g, rnd))
+        while len(out) < n:
+            g, tb = next(st)
+            if rnd.random() < 0.25: g = gg.add_error_rules(g, rnd)
+            if rnd.random() < 0.4: g = gg.decorate(g, rnd, strings=0, typed=0)
+            if gg.classify(ref_lr1.build(g)) in ('rr', 'acc'): continue
+            add(gg.to_custom_lexer(g, rnd))
     elif profile == 'verbose':    # C16
         for g in core: add(g)
         for g in gg.err_core(): add(g)
@@ -493,6 +503,19 @@ def c19(tier):
                       'so identity of the returned reference, the id the result was built from, copies/moves of every argument and of the container are observed; every case is distinct and non-trivial')
     ck.assumptions += ['reads of an argument that leave no trace (no copy, move or mutation) are not observable']
     return ck.finish(floor_events=n)
+
+@register('C18')
+def c18(tier):
+    ck = Check('C18', tier)
+    q = tier == 'quick'
+    cfg = {'modes': [0, 1, 3, 4, 7, 8, 9], 'exh_cap': 150 if q else 400, 'exh_len': 4, 'n_rand': 40, 'n_mut': 60, 'long': (30, 120) if q else (100, 600), 'n_ws': 60, 'ws': 0.5, 'n_raw': 24}
+    merge(ck, run_pipeline('C18', tier, gen_grammars('C18', tier, 128 if q else 1500, 'customlexer'), cfg))
+    ck.cov['rule'] = ('grammars over custom terms with use_lexer<scripted lexer>: the lexer answers (term index, length) as a function of the first byte (lengths 1..4, so not a longest match; '
+                      'unmapped bytes fail; whitespace bytes may be terms) and logs every call (offset, remaining length, source point it was given, answer); the call log interleaved with the '
+                      'term-functor and rule-functor log, the result and the messages are compared exactly with the reference driver over the same script, under all whitespace options, '
+                      'verbose on/off and three buffer kinds; distinct_nontrivial = distinct (grammar,input,options) with >= 2 lexer calls')
+    ck.assumptions += REF_ASSUME + ['lexer answers are in range and never of length 0 (C06 precondition)']
+    return ck.finish(floor_events=1000)
 
 def replay(prop, path):
     rep = json.load(open(path))
